@@ -68,6 +68,8 @@ Mains == { Sc("m1", <<Rel(<<>>, "sub.xbb")>>, <<>>),
            Sc("m8", <<Rel(<<"lib2">>, "chip2.xbb"), Rel(<<>>, "common.xbb")>>, <<>>),    \* ... that also declare the same program name
            Sc("m9", <<Rel(<<>>, "common.xbb"), Rel(<<"lib2">>, "chip2.xbb")>>, <<>>),
            Sc("m10", <<Rel(<<>>, "rsub.xbb"), Rel(<<>>, "tsub.xbb")>>, <<>>) }   \* the opposite order
+\* quick tier: pairs of items under the layouts that exercise distinct mechanisms, single items under all of them
+MainsQuick == {m \in Mains : m.name \in {"m2", "m4", "m5", "m8", "m10"}}
 GoodItems == { Call("sub", <<I(0), I(1), I(2)>>), Call("sub", <<I(5), I(4), I(7)>>),
            Call("Common", <<I(6), I(7)>>), Call("chip", <<I(1), I(0), I(3)>>), Call("chip2", <<I(2), I(4)>>), Call("CommonLib", <<I(5)>>),
            \* template parameters of the including script handed down, also under swapped names
@@ -130,7 +132,9 @@ Inline(s, reg) == [s EXCEPT !.incs = <<>>,
                                                 THEN InlineCall(s.body[i], RegGet(reg, s.body[i].op), EnvAt(s.body, i - 1))
                                                 ELSE <<s.body[i]>>) \o F(i + 1)
                                     IN F(1)]
-Reg0 == Registry(script, W, 3)
+\* (the registry depends on the include lines only: computed once per main script, as a constant table)
+RegTable == [m \in Mains |-> Registry(m, W, 3)]
+Reg0 == RegTable[[script EXCEPT !.body = <<>>]]
 \* loops are unrolled textually first, so that calls in loop bodies are inlined once per iteration
 Flat == IF CanUnroll(script) THEN Unroll(script) ELSE script
 IncludeIsInlining == (Over /\ CanUnroll(script) /\ AllCallsWellFormed(Flat, Reg0)) =>
@@ -143,6 +147,17 @@ RegistryAgrees == (S.res = None /\ Len(S.st) = 1 /\ Top(S).pc <= Len(Top(S).plan
                     => {Top(S).incs[i].name : i \in 1..Len(Top(S).incs)} = {Reg0[i].name : i \in 1..Len(Reg0)}
 EmitI == Over => PrintT(<<"CASE", ToJson([s |-> script, out |-> S.res,
                     inl |-> IF CanUnroll(script) /\ AllCallsWellFormed(Flat, Reg0) THEN Inline(Flat, Reg0) ELSE [none |-> TRUE]])>>)
+\* The same two statements evaluated together with the emission, so that the unrolled script, the well-formedness of its calls and
+\* the inlined script are computed once per final state; the verdicts are printed with the case (the harness requires both TRUE).
+EmitAll == Over => LET cu == CanUnroll(script)
+                       flat == IF cu THEN Unroll(script) ELSE script
+                       wf == cu /\ AllCallsWellFormed(flat, Reg0)
+                       inl == IF wf THEN Inline(flat, Reg0) ELSE [none |-> TRUE]
+                       b == IF wf THEN Load(inl) ELSE [k |-> "none"]
+                       inlining == wf => (S.res.k = b.k /\ (S.res.k = "ok" => SameOps(S.res.prog, b.prog) /\ S.res.prog.modes = b.prog.modes))
+                       refused == (cu /\ ~wf) => S.res.k = "raise"
+                   IN PrintT(<<"CASE", ToJson([s |-> script, out |-> S.res, inl |-> inl, inlining |-> inlining, refused |-> refused])>>)
+EmitPlain == Over => PrintT(<<"CASE", ToJson([s |-> script, out |-> S.res])>>)       \* the single prediction only (C19)
 EmitFiles == PrintT(<<"FILES", ToJson(Files)>>)
 ASSUME EmitFiles
 =============================================================================
